@@ -63,7 +63,7 @@ func runC04(c *Check, rng *rand.Rand) {
 func c04config(c *Check, seed int64, cf c04cfg) {
 	rng := rand.New(rand.NewSource(seed))
 	env, err := NewEnv(EnvOpt{Masters: cf.masters, Replicas: cf.replicas,
-		Cfg:  ProxyCfg{Password: cf.password, DisableSlave: cf.disableSlave},
+		Cfg:  ProxyCfg{Password: cf.password, DisableSlave: cf.disableSlave, Env: c04hooks(cf)},
 		Topo: func(cl *Cluster) *Topo {
 			t := RandomTopo(cl, cf.masters, cf.replicas, cf.ranges, rng.Intn)
 			if cf.replicas > 0 && cf.masters > 2 {
@@ -459,4 +459,15 @@ func roleName(r Role) string {
 		return "script"
 	}
 	return "local"
+}
+
+
+// c04hooks arms a delay inside the topology refresh (between the node map and the
+// replica sets being replaced) for configurations that change topology live, so that
+// the event loop's table rebuild can run inside that window.
+func c04hooks(cf c04cfg) []string {
+	if !cf.swap {
+		return nil
+	}
+	return []string{"RCPROXY_VERIF_POINTS=cluster.beforeSetReplicaset=sleep(1300),cluster.setServerMid=sleep(400)"}
 }
